@@ -78,7 +78,17 @@ func (p *Path) equals(t types.Type, x, y value) *Term {
 			panic(targetPanic{iface{t: p.eng.lp.rtErrType, v: "runtime error: comparing uncomparable type " + x.t.String()}})
 		}
 		return p.equals(x.t, x.v, yi.v)
+	case *rval:
+		// reflect.Value compared with ==: identical handle, or both invalid
+		yr, ok := y.(*rval)
+		if !ok {
+			return tFalse // a valid Value is never equal to the zero Value
+		}
+		return Bool(x == yr || (x.addr != nil && x.addr == yr.addr && types.Identical(x.t, yr.t)))
 	case structure:
+		if _, isR := y.(*rval); isR {
+			return tFalse
+		}
 		ys := y.(structure)
 		st := t.Underlying().(*types.Struct)
 		r := tTrue
